@@ -223,7 +223,13 @@ func vfDrawC02Conf(t *rapid.T) (c *vfC02Conf) {
 		for i := 0; i < np; i++ {
 			v := rapid.SampledFrom(vals).Draw(t, fmt.Sprintf("planted%d", i))
 			rule := "||" + v + "^"
-			switch rapid.IntRange(0, 5).Draw(t, fmt.Sprintf("planted%d_mod", i)) {
+			switch rapid.IntRange(0, 6).Draw(t, fmt.Sprintf("planted%d_mod", i)) {
+			case 6:
+				// a hosts-file line, with the addresses such lists use
+				if net.ParseIP(v) == nil {
+					rule = rapid.SampledFrom([]string{"127.0.0.1 ", "0.0.0.0 ", "::1 ", "10.9.8.7 ", ""}).Draw(t, fmt.Sprintf("planted%d_hosts_ip", i)) + v
+					vfC02.Class("rule:hosts_style_on_answer_value")
+				}
 			case 0:
 				rule += "$important"
 			case 1:
@@ -538,15 +544,10 @@ func vfC02CheckOne(t *rapid.T, c *vfC02Conf, q *vfC01Query, o *vfOutcome, blocke
 			got, exp = vfDropTTL(o.Res.Answer), vfDropTTL(want)
 		}
 		if strings.Join(got, "\n") != strings.Join(exp, "\n") {
-			// with AAAA disabled the statement allows the removal of
-			// ipv6hint also on the gated paths
-			alt := vfWireStrings(vfStripV6Hints(upstreamRRs))
-			if c.CacheOn {
-				alt = vfDropTTL(vfStripV6Hints(upstreamRRs))
-			}
-			if !(c.AAAAOff && strings.Join(got, "\n") == strings.Join(alt, "\n")) {
-				fail("answer not delivered unchanged: got %q want %q", got, exp)
-			}
+			// where response filtering is not applicable (protection or
+			// filtering off, allow-listed name) "unchanged" includes the
+			// ipv6hint values, AAAA disabled or not
+			fail("answer not delivered unchanged: got %q want %q", got, exp)
 		}
 		if o.Res.Rcode != dns.RcodeSuccess || len(o.Res.Question) != 1 || o.Res.Question[0] != o.Req.Question[0] {
 			fail("rcode/question changed")
